@@ -1,7 +1,7 @@
 #!/bin/sh
 # usage: try_seeded.sh <PROP> <patch.diff> [check args...]   -> runs ./check PROP against a scratch worktree with the patch
 PROP=$1; PATCH=$2; shift 2
-WT=/tmp/wt/_try2
+WT=${WT:-/tmp/wt/_try2}
 [ -d $WT ] || git -C /repo worktree add --detach $WT main >/dev/null 2>&1
 git -C $WT checkout -q -- . ; git -C $WT checkout -q --detach main; git -C $WT apply $PATCH || { echo "patch does not apply"; exit 3; }
 (cd /verif && FIDDLE_VERIF_REPO=$WT ./check $PROP "$@" 2>/tmp/try_seeded.err | grep -v '^\[' | tail -4); RC=$?
